@@ -512,6 +512,27 @@ def const_program(case):
         )
         first = off0 * (n // shape[0])
         return src, gvals[first : first + n], shape
+    elif case["kind"] in ("const-msc-subview", "global-msc-subview"):
+        # the constant / global reaches its consumers through a shared memory_space_cast: one of them through a layout cast,
+        # the other through a subview (its first row / element block) of the cast result
+        l3 = f'memref<{sh}x{el}, "L3">'
+        l1 = f'memref<{sh}x{el}, "L1">'
+        l1t = f'memref<{sh}x{el}, {tsl}, "L1">'
+        strides = [1] * len(shape)
+        for i in range(len(shape) - 2, -1, -1):
+            strides[i] = strides[i + 1] * shape[i + 1]
+        first = 1 if shape[0] > 1 else 0
+        vshape = [1] + shape[1:]
+        vty = f'memref<{"x".join(map(str, vshape))}x{el}, strided<[{", ".join(map(str, strides))}], offset: {first * strides[0]}>, "L1">'
+        offs = ", ".join([str(first)] + ["0"] * (len(shape) - 1))
+        head = (f'builtin.module {{\n  %0 = arith.constant dense<{nested(vals, shape)}> : {l3}\n' if case["kind"] == "const-msc-subview"
+                else f'builtin.module {{\n{glob}  %0 = memref.get_global @g : {l3}\n')
+        src = head + (
+            f'  %m = "memref.memory_space_cast"(%0) : ({l3}) -> {l1}\n'
+            f'  %s = memref.subview %m[{offs}] [{", ".join(map(str, vshape))}] [{", ".join(["1"] * len(shape))}] : {l1} to {vty}\n'
+            f'  "test.op"(%s) {{view_of_constant}} : ({vty}) -> ()\n'
+            f'  %1 = "snax.layout_cast"(%m) : ({l1}) -> {l1t}\n  "test.op"(%1) : ({l1t}) -> ()\n}}'
+        )
     elif case["kind"] == "const-subview":
         # the constant is also read through a subview (its first row / first element block) by another consumer
         l1 = f'memref<{sh}x{el}, "L1">'
@@ -744,7 +765,7 @@ def gen_case(rng, tier):
         tb = [[rng.choice([1, 2, 2, 3, 4]) for _ in range(depth[d])] for d in range(rank)]
         return {"fam": "const", "tb": tb, "steps": gen_steps(rng, tb, pad=False), "steps2": gen_steps(rng, tb, pad=False), "el": rng.choice(["i8", "i32", "f32"]),
                 "mult": rng.choice([1, 2, 3]), "off0": rng.choice([0, 0, 1, 2]),
-                "kind": rng.choice(["const", "const", "const-two-layouts", "const-chain", "const-subview", "global-subview", "global-subview", "global", "global", "global-two-gets", "global-two-casts", "global-two-funcs", "global-two-layouts", "global-chain", "global-msc-two-layouts"]), "mul": rng.choice([1, 3, 7])}
+                "kind": rng.choice(["const", "const", "const-two-layouts", "const-chain", "const-subview", "const-msc-subview", "global-msc-subview", "global-subview", "global-subview", "global", "global", "global-two-gets", "global-two-casts", "global-two-funcs", "global-two-layouts", "global-chain", "global-msc-two-layouts"]), "mul": rng.choice([1, 3, 7])}
     accum = rng.choice([0, 0, 0, 0.3])
     uninit = rng.choice([0, 0, 0, 0.4])
     dyn = rng.random() < 0.15
